@@ -14,7 +14,7 @@ ASSUMPTIONS = [
     "exception classes from a menu of 8 shapes; positional arguments include free integers, keyword arguments from a menu ('across every serializer' is covered for JSON here and by the C03 codec contract otherwise)",
     "keyword-argument names that collide with parameter / attribute names on the receiving side (error, self, callee, enc_algo, ...) are driven by the peerkw units with a free integer value",
 ]
-BOUNDS = {"quick": "8 exception-class shapes x 4 argument shapes (free 64-bit integers) x 3 keyword shapes x traceback on/off x {direct functions, full call through two sessions}; 8 exception types raised by the registered class's constructor; registrations of 4 sessions in one process; 11 colliding keyword names x 3 receiver registrations x args on/off", "thorough": "same, plus msgpack/cbor codecs on concrete values"}
+BOUNDS = {"quick": "8 exception-class shapes x 4 argument shapes (free 64-bit integers) x 3 keyword shapes x traceback on/off x {direct functions, full call through two sessions}; 8 exception types raised by the registered class's constructor; registrations of 4 sessions in one process; 11 colliding keyword names x 3 receiver registrations x args on/off; exception classes in an inheritance relation (derived class with its own registration, derived class without one)", "thorough": "same, plus msgpack/cbor codecs on concrete values"}
 EXPECT_COVERS = ["cls:registered", "cls:fallback", "uri:registered", "uri:runtime_error", "uri:carried", "e2e"]
 BUDGET = {"quick": dict(wall_s=200, max_paths=20000, diff_samples=4), "thorough": dict(wall_s=1200)}
 
